@@ -30,6 +30,14 @@ pub fn eq_fold_ascii(a: &str, b: &str) -> bool {
     true
 }
 
+/// number of enabled, non-default variants that claim s
+pub fn claimers(spec: &PSpec, s: &str) -> usize {
+    spec.variants
+        .iter()
+        .filter(|v| v.enabled && !v.is_default && v.spellings.iter().any(|sp| *sp == s || (v.ci && eq_fold_ascii(sp, s))))
+        .count()
+}
+
 pub fn ref_parse(spec: &PSpec, s: &str) -> Expect {
     for (i, v) in spec.variants.iter().enumerate() {
         if !v.enabled || v.is_default {
@@ -93,6 +101,11 @@ pub fn drive_parse<E: Debug + PartialEq>(m: &mut Mon, spec: &'static PSpec, apis
 }
 
 pub fn check_one<E: Debug + PartialEq>(m: &mut Mon, spec: &'static PSpec, apis: &ParseApis<E>, s: &str, class: &str) {
+    if spec.overlap && claimers(spec, s) > 1 {
+        // which of several claiming variants wins is not pinned by the property: not judged
+        m.count("overlap/ambiguous-input-not-judged");
+        return;
+    }
     let exp = ref_parse(spec, s);
     let verbatim = matches!(exp, Expect::Variant(i) if spec.variants[i].spellings.iter().any(|x| *x == s));
     let key = if verbatim { None } else { Some(hash_of(&s)) };
